@@ -137,10 +137,16 @@ func VerifC08_EPkgCall() {
 	evalSrc(env, "(in-package 'p) (in-package 'q) (in-package 'user)")
 	env.PutGlobal(lisp.Symbol("p:g"), lisp.Int(vp))
 	env.PutGlobal(lisp.Symbol("q:g"), lisp.Int(vq))
-	fail := vndBool("fail")
+	failKind := vndChoice("fail", 4) // 0 succeeds, 1 error in the only form, 2 error in a NON-final body form, 3 error in the final form of several
+	fail := failKind != 0
 	body := "g"
-	if fail {
+	switch failKind {
+	case 1:
 		body = "(progn (set 'seen g) (error 'boom 1))"
+	case 2:
+		body = "(set 'seen g) (error 'boom 1) 'unreached"
+	case 3:
+		body = "(set 'seen g) 'mid (error 'boom 1)"
 	}
 	r := evalSrc(env, "(in-package 'p) (export 'f) (defun f () "+body+") (in-package 'q)")
 	vAssert(r.Type != lisp.LError, "definitions load")
@@ -155,6 +161,15 @@ func VerifC08_EPkgCall() {
 		vAssert(res.Type == lisp.LInt && res.Int == vp, "an unqualified global in a function body resolves in the function's defining package, not the caller's")
 	}
 	vAssert(env.Runtime.Package.Name == "q", "the caller's package is restored after the call, also on error")
+	// the caller catches the error and goes on IN THE SAME EVALUATION: its own package must be current again
+	cont := evalSrc(env, "(progn (ignore-errors "+calls[via]+") (set 'after g) (list g after))")
+	vAssert(cont.Type != lisp.LError && len(cont.Cells) == 2 && cont.Cells[0].Type == lisp.LInt && cont.Cells[0].Int == vq, "after a caught error from a function of another package the caller's code resolves globals in the caller's package again")
+	aft := evalSrc(env, "q:after")
+	vAssert(aft.Type == lisp.LInt && aft.Int == vq, "and binds them there")
+	hb := evalSrc(env, "(handler-bind ((condition (lambda (c &rest a) g))) "+calls[via]+")")
+	if fail {
+		vAssert(hb.Type == lisp.LInt && hb.Int == vq, "a handler in the caller runs with the caller's package current")
+	}
 	own := evalSrc(env, "g")
 	vAssert(own.Type == lisp.LInt && own.Int == vq, "the caller still sees its own binding")
 	vCover("end")
